@@ -26,7 +26,7 @@ impl EmmyLuaEmitter {
 
     /// Write a doc comment line: `--- text`.
     pub fn write_doc_comment(&mut self, text: &str) {
-        for line in text.lines() {
+        for line in doc_comment_lines(text) {
             let _ = writeln!(self.output, "--- {}", line);
         }
     }
@@ -58,19 +58,25 @@ impl EmmyLuaEmitter {
     pub fn write_field(&mut self, name: &str, ty: &str, description: Option<&str>) {
         // Emit description above the field
         if let Some(desc) = description {
-            for line in desc.lines() {
-                let _ = writeln!(self.output, "--- {}", line);
-            }
+            self.write_doc_comment(desc);
         }
 
         // Use ["name"] form for field names with special characters
         let formatted_name = if needs_bracket_notation(name) {
-            format!("[\"{}\"]", name)
+            format!("[{}]", quote_lua_string(name))
         } else {
             name.to_string()
         };
 
         let _ = writeln!(self.output, "---@field {} {}", formatted_name, ty);
+    }
+
+    /// Write an index signature `---@field [key_type] value_type`.
+    pub fn write_index_field(&mut self, key_ty: &str, value_ty: &str, description: Option<&str>) {
+        if let Some(desc) = description {
+            self.write_doc_comment(desc);
+        }
+        let _ = writeln!(self.output, "---@field [{}] {}", key_ty, value_ty);
     }
 
     /// Write `---@alias AliasName`.
@@ -85,25 +91,16 @@ impl EmmyLuaEmitter {
 
     /// Write `---| "value" # description`.
     pub fn write_alias_variant(&mut self, value: &str, description: Option<&str>) {
-        match description {
-            Some(desc) => {
-                let _ = writeln!(self.output, "---| \"{}\" # {}", value, desc);
-            }
-            None => {
-                let _ = writeln!(self.output, "---| \"{}\"", value);
-            }
-        }
+        self.write_alias_type_variant(&quote_lua_string(value), description);
     }
 
     /// Write `---| type # description` (for non-string union members).
     pub fn write_alias_type_variant(&mut self, ty: &str, description: Option<&str>) {
-        match description {
-            Some(desc) => {
-                let _ = writeln!(self.output, "---| {} # {}", ty, desc);
-            }
-            None => {
-                let _ = writeln!(self.output, "---| {}", ty);
-            }
+        let desc = description.map(single_line).unwrap_or_default();
+        if desc.is_empty() {
+            let _ = writeln!(self.output, "---| {}", ty);
+        } else {
+            let _ = writeln!(self.output, "---| {} # {}", ty, desc);
         }
     }
 
@@ -116,6 +113,83 @@ impl EmmyLuaEmitter {
     pub fn finish(self) -> String {
         self.output
     }
+}
+
+/// Render `value` as a double-quoted Lua string literal that stays one token on one line.
+///
+/// The EmmyLua doc lexer ends a string at the next quote character without looking at
+/// backslashes, so a quote is written as `\x22`; backslashes, line breaks and other control
+/// characters are escaped as well. The string decoder maps the escapes back to `value`.
+pub fn quote_lua_string(value: &str) -> String {
+    let mut out = String::with_capacity(value.len() + 2);
+    out.push('"');
+    for c in value.chars() {
+        match c {
+            '\\' => out.push_str("\\\\"),
+            '"' => out.push_str("\\x22"),
+            '\n' => out.push_str("\\n"),
+            '\r' => out.push_str("\\r"),
+            '\t' => out.push_str("\\t"),
+            c if (c as u32) < 0x20 || c as u32 == 0x7f => {
+                let _ = write!(out, "\\x{:02X}", c as u32);
+            }
+            c => out.push(c),
+        }
+    }
+    out.push('"');
+    out
+}
+
+/// Turn an arbitrary string into a name that is a single name token of the doc syntax:
+/// letters, digits and `_`, with single `.` separators between them.
+pub fn sanitize_type_name(name: &str) -> String {
+    let mut out = String::with_capacity(name.len());
+    // a '.' is only kept directly after a name character
+    let mut after_name_char = false;
+    for c in name.chars() {
+        if c.is_alphanumeric() || c == '_' {
+            if out.is_empty() && !(c.is_alphabetic() || c == '_') {
+                out.push('_');
+            }
+            out.push(c);
+            after_name_char = true;
+        } else if c == '.' && after_name_char {
+            out.push('.');
+            after_name_char = false;
+        } else {
+            out.push('_');
+            after_name_char = true;
+        }
+    }
+    if out.is_empty() || out.ends_with('.') {
+        out.push('_');
+    }
+    out
+}
+
+/// Split a description into the lines of a `--- ` comment block: no line break or other control
+/// character survives inside a line, and a line never starts a doc tag.
+fn doc_comment_lines(text: &str) -> Vec<String> {
+    let mut lines = Vec::new();
+    for line in text.lines() {
+        for piece in line.split('\r') {
+            let mut cleaned: String = piece
+                .chars()
+                .map(|c| if c.is_control() && c != '\t' { ' ' } else { c })
+                .collect();
+            if cleaned.trim_start_matches([' ', '\t']).starts_with('@') {
+                let at = cleaned.find('@').unwrap_or(0);
+                cleaned.insert(at, '\\');
+            }
+            lines.push(cleaned);
+        }
+    }
+    lines
+}
+
+/// A description squeezed onto one line (for `# description` suffixes).
+fn single_line(text: &str) -> String {
+    doc_comment_lines(text).join(" ")
 }
 
 /// Check if a field name needs bracket notation (contains special characters).
